@@ -106,7 +106,19 @@ def make(config):
     from cashews.picklers import PicklerType, get_pickler
     from cashews.serialize import HashSigner, get_serializer
     ptype = {"default": PicklerType.DEFAULT, "json": PicklerType.JSON, "null": PicklerType.NULL}[config["pickler"]]
-    ser = get_serializer(secret=config.get("secret_value", SECRET) if config["secret"] else None, digestmod=config["digest"], pickle_type=ptype)
+    secret = config.get("secret_value", SECRET) if config["secret"] else None
+    mem = None
+    if config.get("via_url"):
+        # the documented way: everything in the settings URL of Cache.setup()
+        from urllib.parse import quote
+        from cashews import Cache
+        url = "mem://?check_interval=0&pickle_type=" + config["pickler"] + "&digestmod=" + config["digest"]
+        if secret is not None:
+            url += "&secret=" + quote(secret, safe="")
+        mem = Cache().setup(url)
+        ser = mem._serializer
+    else:
+        ser = get_serializer(secret=secret, digestmod=config["digest"], pickle_type=ptype)
     base = ser._pickler
     rec = {"dumps": [], "loads": [], "macs": [], "cenc": []}
 
@@ -138,7 +150,8 @@ def make(config):
         return g
     HashSigner._digestmods = {k: wrap(k, f) for k, f in saved.items()}
     rec["restore"] = lambda: setattr(HashSigner, "_digestmods", saved)
-    mem = Memory(check_interval=0, serializer=ser)
+    if mem is None:
+        mem = Memory(check_interval=0, serializer=ser)
     return mem, rec
 
 
